@@ -4,7 +4,6 @@ package main
 // documented contract.
 
 import (
-	"encoding/json"
 	"fmt"
 	"math"
 	"math/big"
@@ -778,4 +777,426 @@ func init() {
 	})
 }
 
-var _ = json.Marshal
+// ---------------------------------------------------------------- every syntactic form of a method call
+//
+// The string / object / number methods reached in every syntactic form of
+// member access (see c15FormNames in fam_c15.go: dot, index with a literal, a
+// variable, a concatenation, a function result, an array element, an object
+// member, the result of an assignment, parentheses around the receiver or the
+// member expression, a match binding holding the bound method), on a receiver
+// that is a literal, a variable, a field of the document ($.name,
+// $.people[1].name), an element of a container, a parameter or a for-in
+// variable. The result must be what the dot form gives and what Go computes.
+
+type c16Probe struct {
+	lit  string // the receiver as a jqawk expression
+	js   string // the receiver as JSON
+	m    string
+	args string
+	want string // what print shows for the result
+	show string // what print shows for the receiver
+}
+
+func c16AsciiCase(s string, upper bool) string {
+	b := []byte(s)
+	for k := range b {
+		if upper && b[k] >= 'a' && b[k] <= 'z' {
+			b[k] -= 32
+		}
+		if !upper && b[k] >= 'A' && b[k] <= 'Z' {
+			b[k] += 32
+		}
+	}
+	return string(b)
+}
+
+func c16Probes() []c16Probe {
+	var ps []c16Probe
+	for _, s := range []string{"Hello, World", "", "a,b,,c", "abc"} {
+		lit, js := mustStrLit(s), jsonString(s)
+		ps = append(ps, c16Probe{lit, js, "length", "", fmt.Sprint(len(s)), s}, c16Probe{lit, js, "upper", "", c16AsciiCase(s, true), s}, c16Probe{lit, js, "lower", "", c16AsciiCase(s, false), s})
+		for _, sep := range []string{",", "", "b"} {
+			var pieces []string
+			if sep == "" {
+				for _, ch := range s {
+					pieces = append(pieces, string(ch))
+				}
+			} else {
+				pieces = strings.Split(s, sep)
+			}
+			q := make([]string, len(pieces))
+			for i, x := range pieces {
+				q[i] = `"` + x + `"`
+			}
+			ps = append(ps, c16Probe{lit, js, "split", mustStrLit(sep), "[" + strings.Join(q, ", ") + "]", s})
+		}
+	}
+	for _, o := range []struct{ lit, js string }{{`{a: 1, b: "x", c: [1, 2]}`, `{"a": 1, "b": "x", "c": [1, 2]}`}, {"{}", "{}"}, {`{length: 2, z: null}`, `{"length": 2, "z": null}`}} {
+		v := c09Decode(o.js)
+		show := c09Pretty(v, false)
+		if _, own := v.o.m["length"]; !own {
+			ps = append(ps, c16Probe{o.lit, o.js, "length", "", fmt.Sprint(len(v.o.m)), show})
+		}
+		for _, keys := range [][]string{{"a", "c"}, {"zz"}, {}, {"b", "b", "z"}} {
+			want := c09NewObj()
+			q := make([]string, len(keys))
+			for i, k := range keys {
+				q[i] = mustStrLit(k)
+				if c, ok := v.o.m[k]; ok {
+					want.o.m[k] = &c09Cell{c.v}
+				} else {
+					want.o.m[k] = &c09Cell{c09Null}
+				}
+			}
+			ps = append(ps, c16Probe{o.lit, o.js, "pluck", strings.Join(q, ", "), c09Pretty(want, false), show})
+		}
+	}
+	for _, f := range []float64{2.5, -2.5, 7, 0.49, -3.5, 1e15 + 0.5} {
+		lit := numLit(f)
+		js := strconv.FormatFloat(f, 'f', -1, 64)
+		ps = append(ps, c16Probe{lit, js, "floor", "", c16F(math.Floor(f)), c16F(f)}, c16Probe{lit, js, "ceil", "", c16F(math.Ceil(f)), c16F(f)}, c16Probe{lit, js, "round", "", c16F(math.Round(f)), c16F(f)})
+	}
+	return ps
+}
+
+var c16PlaceNames = []string{"literal", "variable", "$.name", "$.people[1].name", "o.t[0]", "parameter", "for-in variable", `$["people"][1]["name"]`}
+
+// c16FormCase: probe p, its call written in the given form, the receiver in the given place
+func c16FormCase(r *rand.Rand, p c16Probe, form, place int) Case {
+	var aux c15Aux
+	doc := `{"name": ` + p.js + `, "people": [{"name": 1}, {"name": ` + p.js + `}]}`
+	R, setup := p.lit, ""
+	switch place {
+	case 1:
+		R, setup = "v", "  v = "+p.lit+"\n"
+	case 2:
+		R = "$.name"
+	case 3:
+		R = "$.people[1].name"
+	case 4:
+		R, setup = "o.t[0]", "  o = {t: ["+p.lit+"]}\n"
+	case 5:
+		R = "p"
+	case 6:
+		R = "e"
+	case 7:
+		R = `$["people"][1]["name"]`
+	}
+	callText := c15FormText(r, &aux, form, R, p.m, p.args)
+	dot := R + "." + p.m + "(" + p.args + ")"
+	var body, funcs string
+	switch place {
+	case 5:
+		funcs = "function via(p) {\n  return " + callText + "\n}\nfunction viadot(p) {\n  return " + dot + "\n}\n"
+		body = "  print via(" + p.lit + ")\n  print viadot(" + p.lit + ")\n  print " + p.lit + "\n"
+	case 6:
+		body = "  for (e in [" + p.lit + "]) {\n    print " + callText + "\n    print " + dot + "\n    print e\n  }\n"
+	default:
+		body = setup + "  print " + callText + "\n  print " + dot + "\n  print " + R + "\n"
+	}
+	prog := funcs + aux.funcs() + "{\n" + aux.prelude("  ") + body + "}\n"
+	want := p.want + "\n" + p.want + "\n" + p.show + "\n"
+	return Case{Req: RunReq(prog, nil, []File{{Name: "in.json", Data: []byte(doc)}}, false), Fields: []string{"class", "out"},
+		Meta: metaProg(prog, "input", doc, "row", c15FormNames[form], "col", p.m, "place", c16PlaceNames[place]),
+		Oracle: func(i Resp) string {
+			if i["class"] != "ok" || string(i.Bytes("out")) != want {
+				return fmt.Sprintf("%s on %s written %s: got %s %q, want %q (the result, the same from the dot form, the receiver unchanged)", p.m, c16PlaceNames[place], c15FormNames[form], i["class"], string(i.Bytes("out")), want)
+			}
+			return ""
+		}}
+}
+
+// ---------------------------------------------------------------- json() of values with shared parts
+//
+// json(v) succeeds exactly when v does not reach itself. A container that is
+// referenced several times -- by siblings, at different depths, from the
+// document and from variables -- is no cycle: it is written out once per
+// reference. The graphs are built by programs (gen_values.go): assignments,
+// pushes, index and member stores, array and object literals naming earlier
+// containers, and containers that came with the input.
+
+func c16GraphScalar(g *vgGraph, lit, pretty string, val interface{}) int {
+	g.nodes = append(g.nodes, vgNode{kind: 's', lit: lit, pretty: pretty, val: val})
+	return len(g.nodes) - 1
+}
+
+// a container held by a variable, created by the statement `cN = expr`
+func c16GraphCont(g *vgGraph, kind byte, expr string, kids []int, keys []string) int {
+	g.nodes = append(g.nodes, vgNode{kind: kind, kids: kids, keys: keys})
+	id := len(g.nodes) - 1
+	g.conts = append(g.conts, id)
+	g.stmts = append(g.stmts, g.varOf(id)+" = "+expr)
+	return id
+}
+
+const c16ShareDoc = `{"a": [1, "x"], "o": {"k": [true], "n": null}, "e": [], "eo": {}}`
+
+// the containers of c16ShareDoc, named by variables
+func c16DocGraph(g *vgGraph) {
+	a := c16GraphCont(g, 'a', "$.a", []int{c16GraphScalar(g, "1", "1", 1.0), c16GraphScalar(g, `"x"`, `"x"`, "x")}, nil)
+	k := c16GraphCont(g, 'a', "$.o.k", []int{c16GraphScalar(g, "true", "true", true)}, nil)
+	o := c16GraphCont(g, 'o', "$.o", []int{k, c16GraphScalar(g, "null", "null", nil)}, []string{"k", "n"})
+	e := c16GraphCont(g, 'a', "$.e", nil, nil)
+	eo := c16GraphCont(g, 'o', "$.eo", nil, nil)
+	c16GraphCont(g, 'o', "$", []int{a, o, e, eo}, []string{"a", "o", "e", "eo"})
+}
+
+var c16LitKeys = []string{"a", "b", "c", "k1", "z", "v", "d", "name"}
+
+// c16LitHolder: a new container written as a literal whose items are the given nodes (earlier
+// containers by their variable, scalars by their literal), some of them wrapped in one more
+// anonymous literal container
+func c16LitHolder(r *rand.Rand, g *vgGraph, kind byte, kids []int) int {
+	text := func(id int) string {
+		if g.nodes[id].kind == 's' {
+			return g.nodes[id].lit
+		}
+		return g.varOf(id)
+	}
+	var items []string
+	var ids []int
+	var keys []string
+	for i, k := range kids {
+		t := text(k)
+		id := k
+		if chance(r, 0.25) {
+			// an anonymous container around it
+			if chance(r, 0.5) {
+				g.nodes = append(g.nodes, vgNode{kind: 'a', kids: []int{k, k}})
+				t = "[" + t + ", " + t + "]"
+			} else {
+				g.nodes = append(g.nodes, vgNode{kind: 'o', kids: []int{k}, keys: []string{"w"}})
+				t = "{w: " + t + "}"
+			}
+			id = len(g.nodes) - 1
+		}
+		ids = append(ids, id)
+		if kind == 'o' {
+			key := c16LitKeys[i%len(c16LitKeys)]
+			keys = append(keys, key)
+			if chance(r, 0.3) {
+				t = `"` + key + `": ` + t
+			} else {
+				t = key + ": " + t
+			}
+		}
+		items = append(items, t)
+	}
+	if kind == 'a' {
+		return c16GraphCont(g, 'a', "["+strings.Join(items, ", ")+"]", ids, nil)
+	}
+	return c16GraphCont(g, 'o', "{"+strings.Join(items, ", ")+"}", ids, keys)
+}
+
+// c16ShareGraph: shared containers referenced 2-4 times from holders at different depths; with
+// cyclic = true some container also reaches itself
+func c16ShareGraph(r *rand.Rand, fromDoc, cyclic bool) *vgGraph {
+	g := &vgGraph{}
+	var shared []int
+	if fromDoc {
+		c16DocGraph(g)
+		shared = append(shared, g.conts[:5]...)
+	}
+	for k := 1 + r.Intn(2); k > 0; k-- {
+		s := g.newCont(pick(r, []byte{'a', 'a', 'o'}))
+		for j := r.Intn(3); j > 0; j-- {
+			g.link(r, s, g.scalar(r, true, false), pick(r, []string{"a", "b", "v"}))
+		}
+		if len(shared) > 0 && chance(r, 0.4) {
+			g.link(r, s, pick(r, shared), pick(r, []string{"c", "k1", "z"})) // a shared container inside a shared container
+		}
+		shared = append(shared, s)
+	}
+	first := len(g.conts)
+	nh := 1 + r.Intn(5)
+	for h := 0; h < nh; h++ {
+		// what the new holder refers to: shared containers (each 1-3 times), the holder before it (depth), an earlier holder, scalars
+		var kids []int
+		for k := 1 + r.Intn(2); k > 0; k-- {
+			s := pick(r, shared)
+			for c := 1 + r.Intn(3); c > 0; c-- {
+				kids = append(kids, s)
+			}
+		}
+		if h > 0 && chance(r, 0.8) {
+			kids = append(kids, g.conts[len(g.conts)-1])
+		}
+		if h > 1 && chance(r, 0.4) {
+			kids = append(kids, g.conts[first+r.Intn(h)])
+		}
+		for k := r.Intn(2); k > 0; k-- {
+			kids = append(kids, g.scalar(r, true, false))
+		}
+		r.Shuffle(len(kids), func(i, j int) { kids[i], kids[j] = kids[j], kids[i] })
+		kind := pick(r, []byte{'a', 'o'})
+		if fromDoc && h == nh-1 && chance(r, 0.5) {
+			// hang everything into the document itself
+			for i, k := range kids {
+				g.link(r, g.conts[5], k, pick(r, []string{"b", "c", "k1", "z", "a"})+fmt.Sprint(i))
+			}
+			continue
+		}
+		if chance(r, 0.5) && len(kids) <= len(c16LitKeys) {
+			c16LitHolder(r, g, kind, kids)
+			continue
+		}
+		id := g.newCont(kind)
+		for i, k := range kids {
+			g.link(r, id, k, vgGraphKeys[(i+r.Intn(3))%len(vgGraphKeys)]+fmt.Sprint(i))
+		}
+	}
+	if cyclic {
+		// a back edge: from a container to itself, to a later one or to the last holder
+		from := pick(r, g.conts)
+		to := g.conts[len(g.conts)-1]
+		switch r.Intn(4) {
+		case 0:
+			to = from
+		case 1:
+			to = pick(r, g.conts)
+		}
+		g.link(r, from, to, pick(r, []string{"self", "c", "k1"}))
+	}
+	return g
+}
+
+func c16ShareCase(r *rand.Rand) Case {
+	fromDoc, cyclic := chance(r, 0.35), chance(r, 0.25)
+	g := c16ShareGraph(r, fromDoc, cyclic)
+	// what to convert: mostly the last holder (or the document), sometimes others, up to three in a row
+	var roots []int
+	for k := 1 + r.Intn(3); k > 0; k-- {
+		switch {
+		case fromDoc && chance(r, 0.5):
+			roots = append(roots, g.conts[5])
+		case chance(r, 0.6):
+			roots = append(roots, g.conts[len(g.conts)-1])
+		default:
+			roots = append(roots, pick(r, g.conts))
+		}
+	}
+	var wants []interface{}
+	fails := false
+	body := strings.Join(g.stmts, "\n  ")
+	for _, id := range roots {
+		arg := g.varOf(id)
+		if chance(r, 0.2) {
+			arg = pick(r, []string{"[" + arg + "][0]", "{k: " + arg + "}.k", "(" + arg + ")"})
+		}
+		body += "\n  print json(" + arg + ")"
+		if t, ok := g.tree(id, nil); ok && !fails {
+			wants = append(wants, t)
+		} else {
+			fails = true
+		}
+	}
+	body += "\n  print 7"
+	if !fails {
+		wants = append(wants, 7.0)
+	}
+	var prog string
+	var files []File
+	input := ""
+	if fromDoc {
+		prog, files, input = "{\n  "+body+"\n}\n", vgDocFile(c16ShareDoc), c16ShareDoc
+	} else {
+		prog = "BEGIN {\n  " + body + "\n}\n"
+	}
+	row := "acyclic"
+	if fails {
+		row = "reaches itself"
+	}
+	return Case{Req: RunReq(prog, nil, files, false), Fields: []string{"class", "out"}, Meta: metaProg(prog, "input", input, "row", row, "values", fmt.Sprint(len(wants))),
+		Oracle: func(i Resp) string {
+			wantClass := "ok"
+			if fails {
+				wantClass = "runtime"
+			}
+			if i["class"] != wantClass {
+				if fails {
+					return "json() of a value that reaches itself must be a runtime error (circular reference), got class " + i["class"]
+				}
+				return "json() of a value that does not reach itself (shared parts are no cycle) must succeed, got class " + i["class"] + " " + i["msg"]
+			}
+			got, err := vgDecodeAll(i.Bytes("out"))
+			if err != nil {
+				return "json() output is not valid JSON for Go's decoder: " + err.Error() + ": " + short(string(i.Bytes("out")))
+			}
+			if len(got) != len(wants) {
+				return fmt.Sprintf("%d values printed, expected %d: %s", len(got), len(wants), short(string(i.Bytes("out"))))
+			}
+			for k := range got {
+				if !vgEqual(got[k], wants[k]) {
+					return fmt.Sprintf("json() value %d parses to a different value: want %s got %s", k, vgShow(wants[k]), vgShow(got[k]))
+				}
+			}
+			return ""
+		}, NonTrivial: c09NT}
+}
+
+func init() {
+	register(Family{
+		Name: "method-forms", Prop: "C16",
+		Rule: "length upper lower split (strings), length pluck (objects), floor ceil round (numbers) reached in each of the 13 syntactic forms of a method call (dot, [\"m\"] in either quote, [variable], [concatenation], [function result], [array element], [object member], [result of an assignment], parentheses around the receiver / the member expression, a match binding holding the bound method) on a receiver that is a literal, a variable, $.name, $.people[1].name (also written with [\"..\"]), an element of a container, a parameter, a for-in variable; the program prints the result, the dot form's result and the receiver; oracle: all three as computed in Go; second part: every receiver kind x every method name (also names that are no method of it) x 4 index forms x 2 argument lists: value or runtime error, compared with the model; matrix form x method",
+		Gen: func(r *rand.Rand, tier string, emit func(Case)) {
+			for _, p := range c16Probes() {
+				for form := range c15FormNames {
+					places := r.Perm(len(c16PlaceNames))
+					if tier != "thorough" {
+						places = places[:2]
+					}
+					for _, pl := range places {
+						if pl == 0 && strings.HasPrefix(p.lit, "{") && (form == 0 || form == 1 || form == 2 || form == 3 || form == 4 || form == 8 || form == 9 || form == 10) {
+							pl = 1 // an object literal at the start of a print argument is fine, but keep the text unambiguous
+						}
+						emit(c16FormCase(r, p, form, pl))
+					}
+				}
+			}
+			for _, rc := range c16Recvs {
+				for _, m := range c16Methods {
+					for _, form := range []int{1, 3, 7, 10} {
+						for _, a := range []string{"", "1"} {
+							var aux c15Aux
+							R := rc.expr
+							setup := ""
+							if rc.kind != "F" && rc.kind != "M" && rc.kind != "U" {
+								R, setup = "v", "  v = "+rc.expr+"\n"
+							}
+							prog := "function f() { return 1 }\n{\n" + setup + "  r = " + c15FormText(r, &aux, form, R, m, a) + "\n  print r, r is null, r is number, r is string, r is array, r is bool\n}\n"
+							emit(Case{Req: RunReq(prog, nil, []File{{Name: "in.json", Data: []byte("{}")}}, false), Fields: []string{"class", "out"},
+								Meta: metaProg(prog, "kinds", rc.kind+"."+m), Oracle: c16OkOrRuntime, NonTrivial: c09NT})
+						}
+					}
+				}
+			}
+		},
+	})
+	register(Family{
+		Name: "json-sharing", Prop: "C16",
+		Rule: "json() of values in which the same array / object is referenced 2-4 times without a cycle: by siblings of one holder, by holders at different depths (chains up to 5 deep, an ancestor and a descendant both referring to it), shared containers inside shared containers, arrays in objects and objects in arrays, built by push / index store / member store / array and object literals naming earlier containers (also wrapped in anonymous literals), containers that came with the input ($.a stored again under $.b, into variables' containers, everything hung into $ itself); 25 % with one more edge that makes a container reach itself (self edge, edge to a later holder, to the last holder); 1-3 json() calls in a row (the later ones must not be affected by the earlier), then `print 7`; oracle: acyclic -> ok and every printed text re-parsed by Go equals the tree of the graph, reaches itself -> runtime error after exactly the values before it; compared with the model (toJVal_acyclic_ok); matrix acyclic / reaches itself x class",
+		Gen: func(r *rand.Rand, tier string, emit func(Case)) {
+			for _, prog := range []string{
+				"BEGIN {\n  t = [\"x\", \"y\"]\n  o.first = t\n  o.second = t\n  print json(o)\n  print json([t, t])\n  print json({p: t, q: {r: t}})\n  print json([[t], [[t]], t])\n}\n",
+				"BEGIN {\n  t = {k: 1}\n  print json([t, t])\n  print json({a: t, b: [t, t]})\n  u = [t]\n  print json([u, u, t])\n}\n",
+				"BEGIN {\n  t = []\n  print json([t, t, t, t])\n  e = {}\n  print json({a: e, b: e, c: [e]})\n}\n",
+				"BEGIN {\n  t = [1]\n  print json([t, t])\n  print json([t, t])\n  t.push(t)\n  print json([1])\n  print json(t)\n}\n",
+			} {
+				cyc := strings.Contains(prog, "t.push(t)")
+				emit(Case{Req: RunReq(prog, nil, nil, false), Fields: []string{"class", "out"}, Meta: metaProg(prog), Oracle: func(i Resp) string {
+					if !cyc && i["class"] != "ok" || cyc && i["class"] != "runtime" {
+						return "shared is not circular: class " + i["class"]
+					}
+					if _, err := vgDecodeAll(i.Bytes("out")); err != nil {
+						return "invalid JSON: " + err.Error()
+					}
+					return ""
+				}, NonTrivial: c09NT})
+			}
+			n := tierN(tier, 2000, 20000)
+			for i := 0; i < n; i++ {
+				emit(c16ShareCase(r))
+			}
+		},
+	})
+}
